@@ -227,8 +227,13 @@ def _is_bytes_axioms():
 BYTES_AXIOMS = _is_bytes_axioms()
 
 
+MentionI = z3.Function('mention', I, B)      # always true; used to put a term into the E-graph (trigger material)
+
+
 def base_axioms():
     A = []
+    _x = z3.Int('x')
+    A.append(_FA([_x], MentionI(_x), patterns=[MentionI(_x)], prefix='mention.'))
     for th in SeqTheory.registry.values():
         A += th.axioms
     for th in MapTheory.registry.values():
